@@ -42,6 +42,7 @@ type Contract struct {
 	ParamProto map[string]string
 	Pos        string
 	File       string
+	Shared     string // name of the shared contract this was instantiated from
 }
 
 type GhostDecl struct {
@@ -94,7 +95,7 @@ var clauseKW = map[string]bool{
 	"requires": true, "ensures": true, "invariant": true, "modifies": true, "decreases": true,
 	"helper": true, "inline": true, "pure": true, "nowf": true, "use": true, "protocol": true,
 	"yields": true, "param": true, "contract": true, "applies": true, "opaque": true, "entry": true, "spec": true,
-	"terminal": true, "allocates": true, "pred": true, "trigger": true, "logic": true, "axiom": true, "nilrecv": true, "verify": true,
+	"terminal": true, "allocates": true, "pred": true, "trigger": true, "assumed": true, "logic": true, "axiom": true, "nilrecv": true, "verify": true,
 }
 
 var labelRe = regexp.MustCompile(`^([A-Za-z_][\w']*)\s*(\[[A-Za-z0-9, ]*\])?\s*:`)
@@ -304,7 +305,7 @@ func (cs *ContractSet) ParseContractLines(file string, lines []string, poss []st
 				}
 				cur.Modifies = append(cur.Modifies, &ModItem{Text: m, Expr: e})
 			}
-		case "helper", "inline", "pure", "nowf", "opaque", "entry", "allocates", "nilrecv", "verify":
+		case "helper", "inline", "pure", "nowf", "opaque", "entry", "allocates", "nilrecv", "verify", "assumed":
 			if cur != nil {
 				cur.Flags[it.kw] = true
 			}
@@ -349,6 +350,33 @@ func (cs *ContractSet) ParseContractLines(file string, lines []string, poss []st
 					cs.Applies[name] = append(cs.Applies[name], strings.TrimSpace(f))
 				}
 			}
+		}
+	}
+}
+
+// ResolveApplies instantiates shared contracts ("contract X" + "applies X to f, g") for each listed function.
+func (cs *ContractSet) ResolveApplies() {
+	for _, name := range sortedKeys(cs.Applies) {
+		shared := cs.ByKey[name]
+		if shared == nil || shared.Kind != "contract" {
+			cs.Errors = append(cs.Errors, "applies: unknown shared contract "+name)
+			continue
+		}
+		for _, fk := range cs.Applies[name] {
+			if _, dup := cs.ByKey[fk]; dup {
+				cs.Errors = append(cs.Errors, "applies: "+fk+" already has a contract")
+				continue
+			}
+			c := *shared
+			c.Key = fk
+			c.Kind = "func"
+			c.Flags = map[string]bool{}
+			for k, v := range shared.Flags {
+				c.Flags[k] = v
+			}
+			c.Shared = name
+			cs.ByKey[fk] = &c
+			cs.Order = append(cs.Order, &c)
 		}
 	}
 }
